@@ -319,8 +319,35 @@ pub fn strategy_lexical() -> BoxedStrategy<LCase> {
     .boxed()
 }
 
+/// very wide terms: 1 025 … 5 000 components, images with the placeholder at the start, in the
+/// front half, in the middle, in the back half and at the end
+pub fn very_wide() -> Vec<Case> {
+    let mut out = vec![];
+    for n in [1025usize, 1500, 2049, 5000] {
+        let kids: Vec<D> = (0..n).map(|i| D::word(&format!("w{i}"))).collect();
+        for how in 0..2u8 {
+            for k in [ImgExt, ImgInt] {
+                for idx in [0, 1, n / 4, n / 2 - 1, n / 2, n / 2 + 1, 3 * n / 4, n - 1, n] {
+                    out.push(Case { d: D::image(k, idx, kids.clone()), how });
+                }
+            }
+            for k in [Product, Seq, SetExt, Conj, IntInt] {
+                out.push(Case { d: D::node(k, kids.clone()), how });
+            }
+        }
+    }
+    out
+}
+
 pub fn streams() -> Vec<Box<dyn AnyStream>> {
     vec![
+        Box::new(Stream::<Case> {
+            name: "very-wide",
+            quick: 0,
+            thorough: 0,
+            source: Source::Enum(Box::new(|_| Box::new(very_wide().into_iter()))),
+            check: Box::new(check),
+        }),
         Box::new(Stream::<Case> {
             name: "small-scope",
             quick: 0,
